@@ -502,7 +502,7 @@ def run(ctx):
         reads, _, _ = parse_binding((env.REPO / "hugr-model" / "src" / "v0" / "ast" / "python.rs").read_text())
     for i in ctx.mine(ctx.n(1500, 50000)):
         r = ctx.rng("program", i)
-        case = {"prog": gen_program(r, kind="module", budget=30)}
+        case = {"prog": gen_program(r, kind="module", budget=30, force=("rowpoly-call",) if i % 6 == 0 else ())}
         if r.random() < 0.4:
             case["md"] = c02.gen_md(r)
         nn = ctx.guard("program", case, check_case, ctx, case, reads)
